@@ -90,3 +90,11 @@ pub proof fn lemma_blob_slice(content: Seq<DataId>, i: int)
 }
 
 pub open spec fn min_int(a: int, b: int) -> int { if a <= b { a } else { b } }
+
+// ---- dump (single-threaded path): the writer receives the file's blobs in content order ----
+pub struct VWriter { pub out: Ghost<Seq<u8>> }
+// write_blob(w, &data) = w.write_all(data) (+ error mapping): on Ok exactly these bytes were appended (ASSUMED std contract)
+#[verifier::external_body]
+pub fn vwrite_blob(w: &mut VWriter, data: &Bytes) -> (r: RusticResult<()>)
+    ensures r is Ok ==> final(w).out@ == old(w).out@ + data.data@,
+{ unimplemented!() }
